@@ -457,6 +457,9 @@ Q_CHECK_EXACT = ("fun c : (operand FO * operand FO * option float * option float
     "      (xq_of_opt rel) (xq_of_opt ab) d) o end")
 
 
+Q_TYPE = ("(operand FO * operand FO * option float * option float * option dim * verdict) + (aq FO * operand FO * option float * option float * option dim * result bool)")
+
+
 def quantity_case_exact(c, dflt):
     """every float operation of both number comparisons exact (so that QO must agree as well)"""
     try:
@@ -627,7 +630,8 @@ def run(ctx):
     # ---- numbers -------------------------------------------------------------------------------
     ncases, h = stream_numbers(ctx, ctx.pick(4000, 40000), dflt)
     hist.update(h)
-    bad = coqrun.eval_cases(ctx, "numbers", pre, [c["lit"] for c in ncases], NUM_CHECK)
+    bad = coqrun.eval_cases(ctx, "numbers", pre, [c["lit"] for c in ncases], NUM_CHECK,
+        case_type="float * float * option float * option float * bool * result bool")
     for i in bad[:25]:
         c = ncases[i]
         ok = spec_numbers(c["l"], c["r"], c["rel"], c["abs"], 0.001, c["obs"][0] == "ok" and c["obs"][1]) if c["obs"][0] == "ok" else None
@@ -647,9 +651,9 @@ def run(ctx):
     # ---- quantities ----------------------------------------------------------------------------
     qcases, h = stream_quantities(ctx, ctx.pick(2500, 20000), dflt)
     hist.update(h)
-    badq = coqrun.eval_cases(ctx, "quantities", pre, [c["lit"] for c in qcases], Q_CHECK)
+    badq = coqrun.eval_cases(ctx, "quantities", pre, [c["lit"] for c in qcases], Q_CHECK, case_type=Q_TYPE)
     exact_q = [c for c in qcases if quantity_case_exact(c, dflt)]
-    badx = coqrun.eval_cases(ctx, "quantities_exact", pre, [c["lit"] for c in exact_q], Q_CHECK_EXACT)
+    badx = coqrun.eval_cases(ctx, "quantities_exact", pre, [c["lit"] for c in exact_q], Q_CHECK_EXACT, case_type=Q_TYPE)
     seen = set()
     for c, which in [(qcases[i], "FO") for i in badq[:25]] + [(exact_q[i], "QO") for i in badx[:25]]:
         if id(c) in seen:
@@ -678,7 +682,8 @@ def run(ctx):
     # ---- vectors -------------------------------------------------------------------------------
     vcases, h = stream_vectors(ctx, ctx.pick(600, 5000), dflt)
     hist.update(h)
-    badv = coqrun.eval_cases(ctx, "vectors", pre, [c["lit"] for c in vcases], V_CHECK)
+    badv = coqrun.eval_cases(ctx, "vectors", pre, [c["lit"] for c in vcases], V_CHECK,
+        case_type="list (aq FO) * list (aq FO) * option float * option float * verdict")
     for i in badv[:25]:
         c = vcases[i]
         ok = spec_vectors(c, 0.001)
